@@ -233,6 +233,15 @@ fn raw_image<C: Cm>(case: &RawCase) -> PResult {
             fail!(format!("from_raw_overlong/{n_}"), "from_raw({c}, {} words) returned a sequence of length {} although the image holds only {cap} symbols", raw.len(), s.len());
         }
     }
+    if C::ID == CodecId::Text {
+        let s: Seq<TextC> = Seq::from(raw.clone());
+        ensure_eq!(s.len(), raw.len() * 8, "text_from_words/len", "Seq::<text::Dna>::from(Vec<usize>) length");
+        ensure_eq!(s.into_raw().to_vec(), raw.clone(), "text_from_words/image", "Seq::<text::Dna>::from(Vec<usize>).into_raw()");
+        for (i, x) in s.iter().enumerate().take(64) {
+            let byte = (case.words[i / 8] >> (8 * (i % 8))) as u8;
+            ensure_eq!(x.to_bits(), byte, "text_from_words/bytes", "byte {i} of Seq::<text::Dna>::from(Vec<usize>)");
+        }
+    }
     Ok(Pass::new(!raw.is_empty()).class_if(raw.is_empty(), "empty_image"))
 }
 
